@@ -333,7 +333,7 @@ def replay(case):
     c = case["case"]
     if c.get("cli"):
         from checks.c08cli import replay_cli
-        return replay_cli()
+        return replay_cli(c)
     rep = Replayer()
     got, raw = native_check(rep, c["source"], c["expect_error"])
     rep.close()
